@@ -46,7 +46,8 @@ func (i *iter) Next(ctx context.Context) (err error) {
 
 	if !i.moved {
 		i.moved = true
-		return nil
+		// the first element must respect the end bound too
+		return i.checkBorder()
 	}
 
 	i.count++
